@@ -99,7 +99,8 @@ type sym struct {
 	Sender int // member index of the claimed signer, -1 for an outsider
 	Byz    int // member that has to be faulty to send this (-1: nobody — honest message or outsider)
 	Valid  bool
-	Core   bool
+	Core   bool // member of the core alphabet (one flavour per class) used by the literal passes
+	Mini   bool // member of the reduced alphabet (messages that pass at least one signature verification)
 	Wire   []byte
 }
 
@@ -267,16 +268,16 @@ func (e *env) buildAlphabet() {
 		sk := e.sks[i]
 		nx, pv := (i+1)%e.n, (i+e.n-1)%e.n
 		// the honest verify message of member i (what round0.normalPieceVerify sends)
-		e.add(sym{Name: fmt.Sprintf("hon(%d)", i), Class: clsHon, Sender: i, Byz: -1, Valid: true, Core: true,
+		e.add(sym{Name: fmt.Sprintf("hon(%d)", i), Class: clsHon, Sender: i, Byz: -1, Valid: true, Core: true, Mini: true,
 			Wire: wire(H, H, sig(sk, H.Bytes()), id, sig(sk, R))})
 		// well-signed share over a different hash, filed under this block
-		e.add(sym{Name: fmt.Sprintf("otherhash(%d)", i), Class: clsOther, Sender: i, Byz: i, Core: true,
+		e.add(sym{Name: fmt.Sprintf("otherhash(%d)", i), Class: clsOther, Sender: i, Byz: i, Core: true, Mini: true,
 			Wire: wire(H, H2, sig(sk, H2.Bytes()), id, sig(sk, R))})
 		// claims this block's hash but the signature is the member's signature over the other hash
 		e.add(sym{Name: fmt.Sprintf("sigmismatch(%d)", i), Class: clsMismatch, Sender: i, Byz: i,
 			Wire: wire(H, H, sig(sk, H2.Bytes()), id, sig(sk, R))})
 		// another member's (valid) shares replayed under the own id
-		e.add(sym{Name: fmt.Sprintf("replay(%d<-%d)", i, nx), Class: clsReplay, Sender: i, Byz: i, Core: true,
+		e.add(sym{Name: fmt.Sprintf("replay(%d<-%d)", i, nx), Class: clsReplay, Sender: i, Byz: i, Core: true, Mini: true,
 			Wire: wire(H, H, sig(e.sks[nx], H.Bytes()), id, sig(e.sks[nx], R))})
 		if pv != nx {
 			e.add(sym{Name: fmt.Sprintf("replay(%d<-%d)", i, pv), Class: clsReplay, Sender: i, Byz: i,
@@ -288,7 +289,7 @@ func (e *env) buildAlphabet() {
 		e.add(sym{Name: fmt.Sprintf("garbagesig:infinity(%d)", i), Class: clsGarbage, Sender: i, Byz: i,
 			Wire: wire(H, H, infinity, id, sig(sk, R))})
 		// honest block share, bad beacon share
-		e.add(sym{Name: fmt.Sprintf("badbeacon:othermsg(%d)", i), Class: clsBeacon, Sender: i, Byz: i, Core: true,
+		e.add(sym{Name: fmt.Sprintf("badbeacon:othermsg(%d)", i), Class: clsBeacon, Sender: i, Byz: i, Core: true, Mini: true,
 			Wire: wire(H, H, sig(sk, H.Bytes()), id, sig(sk, R2))})
 		e.add(sym{Name: fmt.Sprintf("badbeacon:othermember(%d)", i), Class: clsBeacon, Sender: i, Byz: i,
 			Wire: wire(H, H, sig(sk, H.Bytes()), id, sig(e.sks[nx], R))})
@@ -642,7 +643,7 @@ func byzOf(e *env, seq []int) map[int]bool {
 	return b
 }
 
-func (e *env) account(c *fw.Ctx, seq []int, res result, countNontrivial bool) {
+func (e *env) account(c *fw.Ctx, seq []int, res result) {
 	c.Eval(1)
 	c.Trace(1)
 	c.Transition(int64(len(res.keys)))
@@ -653,7 +654,7 @@ func (e *env) account(c *fw.Ctx, seq []int, res result, countNontrivial bool) {
 		c.Sample(map[string]interface{}{"n": e.n, "k": e.k, "messages": e.names(seq), "model": res.outcomes,
 			"final_state": res.keys[len(res.keys)-1]})
 	}
-	if countNontrivial && res.f == nil && res.admitted > 0 && res.refused > 0 {
+	if res.f == nil && res.admitted > 0 && res.refused > 0 {
 		c.Nontrivial(fmt.Sprintf("%d|%s", e.n, strings.Join(e.names(seq), ",")))
 	}
 }
@@ -661,7 +662,7 @@ func (e *env) account(c *fw.Ctx, seq []int, res result, countNontrivial bool) {
 // ---------------------------------------------------------------------------------
 // part A: BFS over histories, full alphabet restricted to one Byzantine set
 
-func (e *env) bfs(c *fw.Ctx, byz []int, depth int, litLen, litByz int) {
+func (e *env) bfs(c *fw.Ctx, byz []int, depth int) {
 	isB := map[int]bool{}
 	for _, b := range byz {
 		isB[b] = true
@@ -685,12 +686,7 @@ func (e *env) bfs(c *fw.Ctx, byz []int, depth int, litLen, litByz int) {
 				}
 				seq := append(append([]int{}, h...), a)
 				res := e.exec(seq, true)
-				// histories inside the literally enumerated space are counted there
-				inLit := len(seq) <= litLen && len(byzOf(e, seq)) <= litByz
-				for _, si := range seq {
-					inLit = inLit && e.syms[si].Core
-				}
-				e.account(c, seq, res, !inLit)
+				e.account(c, seq, res)
 				if res.f != nil {
 					e.report(c, seq, true, res.f)
 					continue // diverged from the model: not extended
@@ -730,10 +726,14 @@ func subsets(n, size int) [][]int {
 // part B: every sequence of exactly length L over the core alphabet (all shorter ones
 // are its prefixes and are checked on the way), at most maxByz distinct Byzantine members
 
-func (e *env) literal(c *fw.Ctx, idx *int64, L, moreThanByz, maxByz int) {
+func (e *env) literal(c *fw.Ctx, idx *int64, mini bool, L, moreThanByz, maxByz int) {
 	var alpha []int
+	name := "core"
+	if mini {
+		name = "mini"
+	}
 	for i, s := range e.syms {
-		if s.Core {
+		if (!mini && s.Core) || (mini && s.Mini) {
 			alpha = append(alpha, i)
 		}
 	}
@@ -747,11 +747,11 @@ func (e *env) literal(c *fw.Ctx, idx *int64, L, moreThanByz, maxByz int) {
 			*idx++
 			if c.Mine(*idx) {
 				if c.Expired() {
-					c.Cap(fmt.Sprintf("literal n=%d L=%d %d<byz<=%d stopped by the time budget", e.n, L, moreThanByz, maxByz))
+					c.Cap(fmt.Sprintf("literal n=%d %s alphabet L=%d %d<byz<=%d not finished within the time budget", e.n, name, L, moreThanByz, maxByz))
 					return
 				}
 				res := e.exec(seq, false)
-				e.account(c, seq, res, true)
+				e.account(c, seq, res)
 				if res.f != nil {
 					e.report(c, seq, false, res.f)
 				}
@@ -773,24 +773,29 @@ func (e *env) literal(c *fw.Ctx, idx *int64, L, moreThanByz, maxByz int) {
 	}
 }
 
+type litPass struct {
+	mini          bool // reduced alphabet instead of the core alphabet
+	length        int
+	gtByz, maxByz int // sequences with more than gtByz and at most maxByz distinct Byzantine members
+}
+
 type plan struct {
 	n                int
-	bfsByz, bfsDepth int // BFS: exactly bfsByz members may be Byzantine (covers fewer), depth n+2
-	litLen, litByz   int // literal pass: length litLen, at most litByz Byzantine members (0 length: none)
-	litLen2, litByz2 int // second literal pass: more than litByz and at most litByz2 Byzantine members
+	bfsByz, bfsDepth int // BFS: one task per set of bfsByz possibly-Byzantine members (covers fewer), depth n+2
+	lit              []litPass
 }
 
 func plans(thorough bool) []plan {
 	if !thorough {
 		return []plan{
-			{n: 3, bfsByz: 1, bfsDepth: 5, litLen: 3, litByz: 1},
+			{n: 3, bfsByz: 1, bfsDepth: 5, lit: []litPass{{false, 3, -1, 1}}},
 			{n: 4, bfsByz: 1, bfsDepth: 6},
 		}
 	}
 	return []plan{
-		{n: 3, bfsByz: 2, bfsDepth: 5, litLen: 5, litByz: 1, litLen2: 4, litByz2: 2},
+		{n: 3, bfsByz: 2, bfsDepth: 5, lit: []litPass{{false, 4, -1, 1}, {false, 3, 1, 2}, {true, 5, -1, 1}}},
 		{n: 4, bfsByz: 2, bfsDepth: 6},
-		{n: 5, bfsByz: 2, bfsDepth: 7, litLen: 4, litByz: 1},
+		{n: 5, bfsByz: 2, bfsDepth: 7, lit: []litPass{{false, 4, -1, 1}}},
 	}
 }
 
@@ -808,24 +813,19 @@ func run(c *fw.Ctx) {
 	for _, p := range ps {
 		e := getEnv(p.n)
 		c.Note(fmt.Sprintf("n%d", p.n), map[string]interface{}{"k": e.k, "alphabet": len(e.syms),
-			"bfs_byzantine": p.bfsByz, "bfs_depth": p.bfsDepth, "literal_len": p.litLen, "literal_byzantine": p.litByz,
-			"literal2_len": p.litLen2, "literal2_byzantine": p.litByz2})
+			"bfs_byzantine": p.bfsByz, "bfs_depth": p.bfsDepth, "literal_passes(mini,len,gtByz,maxByz)": fmt.Sprint(p.lit)})
 		for _, b := range subsets(p.n, p.bfsByz) {
 			idx++
 			if c.Mine(idx) {
-				e.bfs(c, b, p.bfsDepth, p.litLen, p.litByz)
+				e.bfs(c, b, p.bfsDepth)
 			}
 		}
 	}
 	// phase 2: literal enumeration
 	for _, p := range ps {
 		e := getEnv(p.n)
-		if p.litLen > 0 {
-			e.literal(c, &idx, p.litLen, -1, p.litByz)
-		}
-		if p.litLen2 > 0 {
-			// only the sequences the first pass did not contain (more Byzantine members)
-			e.literal(c, &idx, p.litLen2, p.litByz, p.litByz2)
+		for _, l := range p.lit {
+			e.literal(c, &idx, l.mini, l.length, l.gtByz, l.maxByz)
 		}
 	}
 }
